@@ -1,6 +1,7 @@
 \* C15 design: sem, 3 contenders x 2 rounds (RLock nesting depth 2, semaphore value 2)
 SPECIFICATION Spec
 CONSTANTS
+  Dev = {}
   Procs = {p1, p2, p3}
   Kind = "sem"
   Permits = 2
